@@ -229,7 +229,10 @@ static int modeV(int nd, unsigned seed, int steps, int maxNodes, const char* pat
             op["a"] = "cloneNode"; op["args"] = {n, deep ? 1 : 0};
         } else if (choice < 67 && room) { op["a"] = "importNode"; op["args"] = {pick(docs), pick(all), R(2)}; }
         else if (choice < 69) { op["a"] = "adoptNode"; op["args"] = {pick(docs), pick(all)}; }
-        else if (choice < 70) { op["a"] = R(2) ? "renameNode" : "renameNodeNS"; op["args"] = {pick(docs), wild ? pick(all) : pick(live({"elem", "attr"}))}; op["nm"] = R(8) == 0 ? "1x" : nm; }
+        else if (choice < 70) { int rn = wild ? pick(all) : pick(live({"elem", "attr"}));
+            DOMNode* rnn = w.N(rn);
+            if (!rnn || to8(rnn->getNodeName()).find(':') != std::string::npos) continue;   // renaming namespaced nodes is not modelled
+            op["a"] = R(2) ? "renameNode" : "renameNodeNS"; op["args"] = {pick(docs), rn}; op["nm"] = R(8) == 0 ? "1x" : nm; }
         else if (choice < 76 && room) { int e = pick(elems); if (!e) continue; op["a"] = "setAttribute"; op["args"] = {e}; op["nm"] = nm; op["s"] = chars(s); }
         else if (choice < 79) { int e = pick(elems); if (!e) continue; op["a"] = "removeAttribute"; op["args"] = {e}; op["nm"] = nm; }
         else if (choice < 83) { int e = pick(elems), a = pick(attrs); if (!e || !a) continue; op["a"] = "setAttributeNode"; op["args"] = {e, a}; }
